@@ -1,7 +1,7 @@
 (* C03 runner: the reference interpreter on encoded requests.
    output: [0; n; c1..cn] rendered text | [1; code] error | [8] out of gas | [9] undecodable *)
 From Coq Require Import String.
-From MJ Require Import Common.Base Lang.Syntax Lang.Meta Lang.Interp Lang.Codec.
+From MJ Require Import Common.Base Lang.Syntax Lang.Meta Lang.Interp Lang.Codec C04.Model L2.Instr L2.Compile L2.Vm.
 
 Definition FUEL := 400%nat.
 
@@ -31,5 +31,100 @@ Definition asks (inp : list Z) : list Z :=
       end
   end.
 
+(* ---- c03-compile: the model compiler's instruction stream in a canonical integer encoding ----
+   output: [0; n; i1 .. in] with every instruction as [opcode; k; a1 .. ak] | [9] undecodable.
+   values: 0 undefined | 7 silent undefined | 1 none | 2 b | 3 z | 4 n c1..cn | 5 n v1..vn | 9 other *)
+Fixpoint enc_value (v : value) : list Z :=
+  match v with
+  | VUndef => [0]
+  | VSilent => [7]
+  | VNone => [1]
+  | VBool b => [2; if b then 1 else 0]
+  | VInt z => [3; z]
+  | VStr _ s => 4 :: lenZ s :: s
+  | VList l => 5 :: lenZ l :: flat_map enc_value l
+  | _ => [9]
+  end.
+
+Definition binop_code (op : binop) : Z :=
+  match op with OAdd => 0 | OSub => 1 | OMul => 2 | OFloorDiv => 3 | ORem => 4 | OConcat => 5 end.
+Definition cmpop_code (op : cmpop) : Z :=
+  match op with CEq => 0 | CNe => 1 | CLt => 2 | CLe => 3 | CGt => 4 | CGe => 5 | CIn => 6 | CNotIn => 7 end.
+
+Definition nz (n : nat) : Z := Z.of_nat n.
+
+Definition enc_instr (i : instr) : list Z :=
+  let mk (op : Z) (args : list Z) := op :: lenZ args :: args in
+  match i with
+  | IEmitRaw t => mk 1 t
+  | IStoreLocal x => mk 2 [x]
+  | ILookup x => mk 3 [x]
+  | IGetAttr a => mk 4 [a]
+  | IGetItem => mk 5 []
+  | ILoadConst v => mk 6 (enc_value v)
+  | ILoadKey k => mk 7 [k]
+  | ILoadKwargs kv => mk 8 (lenZ kv :: flat_map (fun p => fst p :: enc_value (snd p)) kv)
+  | ILoadNames ps => mk 9 ps
+  | IBuildKwargs n => mk 10 [nz n]
+  | IBuildList None => mk 11 []
+  | IBuildList (Some n) => mk 11 [nz n]
+  | IUnpackList n => mk 12 [nz n]
+  | IBinOp op => mk 13 [binop_code op]
+  | INeg => mk 14 []
+  | ICompare op => mk 15 [cmpop_code op]
+  | INot => mk 16 []
+  | ICompareAndPreserve op => mk 17 [cmpop_code op]
+  | IApplyFilter f n => mk 18 [f; nz n]
+  | IPerformTest t n => mk 19 [t; nz n]
+  | IEmit => mk 20 []
+  | IPushLoop fl => mk 21 [nz fl]
+  | IPushWith => mk 22 []
+  | IIterate t => mk 23 [nz t]
+  | IPushDidNotIterate => mk 24 []
+  | IPopFrame => mk 25 []
+  | IPopLoopFrame => mk 26 []
+  | IJump t => mk 27 [nz t]
+  | IJumpIfFalse t => mk 28 [nz t]
+  | IJumpIfFalseOrPop t => mk 29 [nz t]
+  | IJumpIfTrueOrPop t => mk 30 [nz t]
+  | IPushAutoEscape => mk 31 []
+  | IPopAutoEscape => mk 32 []
+  | IBeginCapture => mk 33 []
+  | IEndCapture => mk 34 []
+  | ICallFunction f n => mk 35 [f; nz n]
+  | IDupTop => mk 36 []
+  | IDiscardTop => mk 37 []
+  | ISwap => mk 38 []
+  | IBuildMacro mc off fl => mk 39 [m_name mc; nz off; nz fl]
+  | IReturn => mk 40 []
+  | IIsUndefined => mk 41 []
+  | IEnclose x => mk 42 [x]
+  | IGetClosure => mk 43 []
+  end.
+
+Definition compile (inp : list Z) : list Z :=
+  match drequest inp with
+  | None => [9]
+  | Some (_, _, _, body) =>
+      let code := compile_template body in
+      0 :: lenZ code :: flat_map enc_instr code
+  end.
+
+(* ---- c03-vm: the model VM on the model compiler's stream; same output format as [run] ---- *)
+Definition VMFUEL := (500 * 1000)%nat.
+
+Definition run_vm_req (inp : list Z) : list Z :=
+  match drequest inp with
+  | None => [9]
+  | Some (md, esc, ctx, body) =>
+      match run_template (mkCfg md ctx esc) VMFUEL (compile_template body) with
+      | Ok s => let o := output_of s in 0 :: lenZ o :: o
+      | Err c => [1; c]
+      | Panic => [2]
+      | OutOfGas => [8]
+      end
+  end.
+
 Open Scope string_scope.
-Definition runners : list (string * (list Z -> list Z)) := [ ("c03", run); ("c03-asks", asks) ].
+Definition runners : list (string * (list Z -> list Z)) :=
+  [ ("c03", run); ("c03-asks", asks); ("c03-compile", compile); ("c03-vm", run_vm_req) ].
